@@ -318,7 +318,7 @@ def order_check(ctx, b, an, tn):
         return False, "at params.insert nothing relates the key to the previous key (equal or smaller keys are accepted)"
     if tn == "NSEC":
         import zone
-        cl = [x for x in prog.bodies.values() if x.kind == "Closure" and x.root == b.id]
+        cl = mu.closures_of(prog, b)
         if len(cl) == 0:
             return nsec_inline_order(ctx, b)
         if len(cl) != 1:
